@@ -245,7 +245,7 @@ def run(ctx: Ctx):
 
 def replay(ctx: Ctx, case):
     rec = {"nodes": case["nodes"], "fault": case["fault"], "target": case["target"],
-           "valid": case["fault"]["dev"] == "none",
+           "valid": case["fault"]["dev"] in ("none", "laxok"),
            "near": [case["target"], case["target"][:-1]]}
     bad, _ = judge(([rec], case["ver"], case["parser"]))
     for rec, ver, parser, xml, what in bad:
